@@ -22,6 +22,7 @@ static inline int v_stoi(const struct v_str *s) { (void)s; int r; unsigned char 
 struct v_sstream { size_t n; };
 static inline struct v_sstream *v_ss_put(struct v_sstream *s, int x) { (void)x; s->n++; return s; }
 static inline struct v_str v_str_from(const char *p, size_t n) { __CPROVER_assert(p != NULL, "std::string(ptr, n): ptr is not null (libstdc++ throws logic_error)"); __CPROVER_assert(n == 0 || __CPROVER_r_ok(p, n), "std::string(ptr, n) reads n bytes inside a live object"); struct v_str r; r.size = n; return r; }
+static struct v_sstream v_cerr;
 struct v_json { char opaque; };
 static inline _Bool v_json_parse_throws(void) { _Bool r; return r; }
 static inline _Bool v_json_contains(const struct v_json *j) { (void)j; _Bool r; return r; }      /* any answer */
